@@ -291,6 +291,21 @@ Theorem C20_infidelity_convergence_test : forall p w ids s ok_kind olen otag sm 
 Proof. exact infidelity_convergence_test. Qed.
 Print Assumptions C20_extend_additional_entry.
 
+(* exactly one noise operator selected (single identifier, one-element list, single-operator pulse): a spectrum with k >= 2
+   rows, two- or three-dimensional, is rejected by infidelity, decay amplitudes (hence cumulant function and error transfer
+   matrix, which call it) and infidelity_derivative *)
+Theorem C20_spectrum_more_rows : forall k kind h n_omega, 2 <= k ->
+  validate_spectrum (Build_spectrum_d kind [k; n_omega] h) 1 n_omega = Raise ValueError /\
+  validate_spectrum (Build_spectrum_d kind [k; k; n_omega] h) 1 n_omega = Raise ValueError.
+Proof. exact spectrum_more_rows. Qed.
+Theorem C20_analysis_more_rows : forall a k s, valid_analysis a -> n_selected (map n_id (p_n (a_pulse a))) (a_ids a) = 1 -> 2 <= k ->
+  s_kind s = s_kind (a_spectrum a) -> s_shape s = [k; a_omega_len a] \/ s_shape s = [k; k; a_omega_len a] ->
+  let a' := Build_analysis_d (a_pulse a) (a_which a) (a_ids a) s (a_omega_kind a) (a_omega_len a) (a_omega_tag a)
+                             (a_smallness a) (a_test_conv a) (a_omega_isdict a) (a_spacing a) in
+  validate_infidelity a' = Raise ValueError /\ validate_decay_amplitudes a' = Raise ValueError /\
+  (forall cs ci, validate_infidelity_derivative a' cs ci = Raise ValueError).
+Proof. exact analysis_more_rows. Qed.
+
 (* ---------------------------------------------------------------- caches, basis sizes, propagator times *)
 Theorem C20_cache_control_matrix : forall n_nops n_basis n_omega,
   validate_cache_control_matrix None n_nops n_basis n_omega = ok /\
